@@ -29,6 +29,10 @@ fi
 "$TMP/instrument" "${OV[@]}" -copy -in /repo/lib/transaction/types.go -out "$TMP/pq/types.go" -pkg pq
 "$TMP/instrument" "${OV[@]}" -in /repo/lib/utils/lru-cache/lru_cache.go -out "$TMP/lru/lru_cache.go" -pkg lru
 
+# the copy lives next to the real lib/transaction package (the transaction-state histories use the real
+# one): its metrics must not register under the same name
+sed -i -E 's/Namespace:([[:space:]]*)"/Namespace:\1"verifsimcopy_/' "$TMP/pq/priority_queue.go"
+
 # publish atomically per file (several checks may build at the same time)
 mv -f "$TMP/pq/priority_queue.go" "$GEN/pq/priority_queue.go"
 mv -f "$TMP/pq/types.go" "$GEN/pq/types.go"
